@@ -81,7 +81,7 @@ let mk_env_with (c : case) (lock : int) (seq : int) : env =
     e_keyok = (fun k ->
       let l = List.length k in
       if tap then l = 32
-      else (l = 33 || (l = 65 && (c.kind = "sh" || c.kind = "bare"))) && List.mem k known);
+      else (l = 33 || (l = 65 && (c.kind = "sh" || c.kind = "bare" || c.kind = "pkh"))) && List.mem k known);
     e_sha256 = hash_lookup c "sha256";
     e_hash256 = hash_lookup c "hash256";
     e_ripemd160 = hash_lookup c "ripemd160";
@@ -522,7 +522,7 @@ let handle_plan (c : case) (toks : string list) =
              let slen = (match c.scripts with [sc] -> List.length sc | _ -> 0) in
              let push_len n = n + (if n <= 75 then 1 else if n <= 255 then 2 else 3) in
              let w_contrib = if c.kind = "wsh" || c.kind = "shwsh" then push_len slen + 2 else 0 in
-             let s_contrib = if c.kind = "sh" then push_len slen + 2 else if c.kind = "shwsh" then 1 else 0 in
+             let s_contrib = if c.kind = "sh" then push_len slen + 2 else if c.kind = "shwsh" || c.kind = "shwpkh" then 1 else 0 in
              if ws < wser then
                bad17 c mode km pm (if ws + w_contrib >= wser && w_contrib > 0 then "announced-witness-size-excludes-script" else "announced-witness-size-too-small")
                  (Printf.sprintf "announced=%d real=%d" ws wser);
